@@ -10,7 +10,13 @@ type Config struct {
 	grammar
 	Cache           map[string][]byte
 	StrictVariables bool
+	// fileDepth counts the RenderFile calls (includes) that the current render is nested in
+	fileDepth int
 }
+
+// maxFileDepth bounds the nesting of RenderFile calls: a template that includes itself, directly or
+// through others, must end in an error, not in stack exhaustion.
+const maxFileDepth = 100
 
 type grammar struct {
 	tags      map[string]TagCompiler
